@@ -9,6 +9,16 @@ hand-written UTF-8 encoder, not by str.encode) and formatted by
 vf.refproto.javahash.java_hex (two's-complement negation on bytes; never
 int.from_bytes(signed=True)).  The published vectors are additionally compared
 against their literal strings.
+
+Part 2 (the hash that is actually SENT).  Real logins through the connection
+harness (vf.harness / vf.refserver) with a stub AuthenticationToken whose
+join(server_id) records its argument: the reference server asks for
+encryption, recovers the shared secret with its RSA key, and the string
+handed to join() in that login must be the reference hash of (server id of
+that login, the secret the server recovered in that login, the encoded public
+key).  HISTORIES of 1..3 consecutive logins on ONE Connection object are
+enumerated (same / different server ids, logins that reach play and logins
+the server ends right after the encryption response), every login judged.
 """
 import hashlib
 import itertools
@@ -31,11 +41,42 @@ RULE = ('Every server id of length 0..2 (quick) / 0..3 (thorough) over a '
         'are enumerated without repetition, so distinct by construction.  '
         'Classes (top bit set, leading zero nibble / byte after sign '
         'handling, part swaps observable) are counted from the reference '
-        'digest and must all be non-empty.')
+        'digest and must all be non-empty.  '
+        'SENT (the string passed to AuthenticationToken.join in real logins '
+        'against the reference server, protocol 757, one 1024-bit server '
+        'key, 4-byte verify token, scripted OS random source): histories of '
+        'k consecutive logins on ONE Connection object with a recording stub '
+        'token; a login step is (server id, ending), ending "play" = login '
+        'success, then the client disconnects, ending "drop" = the server '
+        'closes the connection right after the encryption response (the '
+        'next login follows directly), thorough also "kick" = an encrypted '
+        'login Disconnect after the encryption response.  Server ids: A = '
+        '"srv", B = U+00E9 U+20AC U+1F600, "" (empty), "-" (offline mode), '
+        'S = three seed-chosen symbols of the alphabet above.  Quick (64 '
+        'histories): k=1: {A,B,"","-",S} x {play,drop}; k=2: every ordered '
+        'pair of {A,B,"","-"} and (S,S) x first ending {play,drop}, second '
+        'play; k=3: AAA, AAB, ABA, ABB x first two endings {play,drop}^2, '
+        'plus ("-",A,A), (A,"-",A), ("","",""), (A,"",A) all play.  '
+        'Thorough: every sequence of length 1..3 over {A,B,"","-"} x '
+        '{play,drop,kick} (1884 histories) plus the quick set at protocols '
+        '47 and 340.  Every login in which the server recovered a secret is '
+        'one judged case: for an id other than "-" at least one join must '
+        'be recorded during that login and every recorded argument must '
+        'equal the reference hash of (id, the secret the server recovered '
+        'in THAT login, key); for "-" a join is not required (pyCraft makes '
+        'none) but any that is made is judged the same way.')
 ASSUMPTIONS = ['hashlib.sha1 (shared with pyCraft as the platform SHA-1) is '
                'correct; checked against the three published vectors',
                'server ids are Unicode strings without lone surrogates (they '
-               'arrive as UTF-8 on the wire)']
+               'arrive as UTF-8 on the wire)',
+               'SENT part: RSA PKCS#1 v1.5 decryption of the cryptography '
+               'package stands for the key holder; the secret the reference '
+               'server recovers from the encryption response is the secret of '
+               'that login (what C18 decides); the session service is '
+               'represented by the join() method of the auth token object '
+               'given to Connection(auth_token=...), so the HTTP request '
+               'built by the real AuthenticationToken.join is not covered '
+               'here (C10 drives it)']
 
 # -- alphabet -----------------------------------------------------------------
 
@@ -322,6 +363,270 @@ def check_order_case(ctx, cps, sec, key):
     flush(ctx, cl)
 
 
+# -- part 2: the hash that is actually sent ------------------------------------
+
+SENT_TOKEN = b'\x05\x06\x07\x08'
+SENT_A = tuple(ord(c) for c in 'srv')
+SENT_B = (0xE9, 0x20AC, 0x1F600)
+SENT_EMPTY = ()
+SENT_OFF = (ord('-'),)
+S_SAME = 'sent: login on a Connection object that already logged in, ' \
+    'server id of an earlier login'
+S_DIFF = 'sent: login on a Connection object that already logged in, ' \
+    'server id not used before'
+S_AFTER_DROP = 'sent: login that follows a login the server ended right ' \
+    'after the encryption response'
+S_AFTER_PLAY = 'sent: login that follows a login that reached play'
+S_THIRD = 'sent: third login on the same Connection object'
+S_EMPTY = 'sent: server id "" (hash of secret and key only)'
+S_OFFLINE = 'sent: server id "-" (offline mode), no join made'
+S_NONASCII = 'sent: non-ASCII server id on the wire'
+SENT_REQUIRED = [S_SAME, S_DIFF, S_AFTER_DROP, S_AFTER_PLAY, S_THIRD,
+                 S_EMPTY, S_OFFLINE, S_NONASCII,
+                 'sent: ' + C_NEG, 'sent: ' + C_POS]
+
+
+def sent_seed_id(seed):
+    """Three seed-chosen symbols of ALPHA (never the single id '-')."""
+    d = hashlib.blake2b(b'C17 sent id %d' % seed, digest_size=3).digest()
+    return tuple(ALPHA[b % N] for b in d)
+
+
+def sent_histories(ctx):
+    """-> list of (history, protocol version); a history is a tuple of
+    (server id code points, ending)."""
+    A, B, E, O = SENT_A, SENT_B, SENT_EMPTY, SENT_OFF
+    S = sent_seed_id(ctx.seed)
+    quick = []
+    for sid in (A, B, E, O, S):
+        for end in ('play', 'drop'):
+            quick.append(((sid, end),))
+    pairs = [(x, y) for x in (A, B, E, O) for y in (A, B, E, O)]
+    if S not in (A, B, E, O):
+        pairs.append((S, S))
+    for x, y in pairs:
+        for e1 in ('play', 'drop'):
+            quick.append(((x, e1), (y, 'play')))
+    for ids in ((A, A, A), (A, A, B), (A, B, A), (A, B, B)):
+        for e1 in ('play', 'drop'):
+            for e2 in ('play', 'drop'):
+                quick.append(((ids[0], e1), (ids[1], e2), (ids[2], 'play')))
+    for ids in ((O, A, A), (A, O, A), (E, E, E), (A, E, A)):
+        quick.append(tuple((i, 'play') for i in ids))
+    out = [(h, 757) for h in quick]
+    if ctx.thorough:
+        steps = [(i, e) for i in (A, B, E, O)
+                 for e in ('play', 'drop', 'kick')]
+        seen = set(quick)
+        for k in (1, 2, 3):
+            for h in itertools.product(steps, repeat=k):
+                if h not in seen:
+                    out.append((h, 757))
+        out += [(h, v) for v in (47, 340) for h in quick]
+    return out
+
+
+def hist_text(hist):
+    return ' > '.join('%s/%s' % (id_text(cps), end) for cps, end in hist)
+
+
+def sent_useed(seed, hist, version):
+    d = hashlib.blake2b(('C17 sent %d %d %r' % (seed, version, hist))
+                        .encode('ascii'), digest_size=4).digest()
+    return int.from_bytes(d, 'big') & 0x7FFFFFFF
+
+
+class _Profile(object):
+    name = 'prof'
+
+
+class RecordingToken(object):
+    """Stands for the session service: join() records what it is given."""
+
+    def __init__(self):
+        self.profile = _Profile()
+        self.calls = []
+
+    def join(self, server_id):
+        self.calls.append(server_id)
+        return True
+
+
+def body_sent(W, hist, version):
+    from vf import harness
+    key, der = harness.rsa_key()
+
+    def per_conn(i):
+        cps, end = hist[min(i, len(hist) - 1)]
+        sid = ''.join(map(chr, cps))
+        tail = {'play': [('success',)], 'drop': [('close',)],
+                'kick': [('disconnect', '{"text":"not white-listed"}')]}[end]
+        return {'login': [('encrypt', sid, SENT_TOKEN)] + tail}
+    W.serve(rsa=(key, der), per_conn=per_conn)
+    tok = RecordingToken()
+    errs = []
+    conn = W.connection(allowed_versions={version}, auth_token=tok,
+                        handle_exception=lambda e, i: errs.append(
+                            type(e).__name__))
+    logins = []
+    for j, (cps, end) in enumerate(hist):
+        before = len(tok.calls)
+        raised = None
+        try:
+            conn.connect()
+        except ToolError:
+            raise
+        except Exception as e:
+            raised = '%s: %s' % (type(e).__name__, e)
+        W.settle()
+        rec = {'servers': len(W.servers), 'connect_raised': raised,
+               'joins': list(tok.calls[before:]), 'errs': list(errs)}
+        if len(W.servers) == j + 1:
+            srv = W.servers[j]
+            rec.update(secret=srv.secret, state=srv.state,
+                       errors=list(srv.errors), sid_sent=srv.server_id,
+                       reactor=type(conn.reactor).__name__)
+        logins.append(rec)
+        if end == 'play' or conn.connected or \
+                conn.networking_thread is not None:
+            try:
+                conn.disconnect()
+            except Exception as e:
+                rec['disconnect_raised'] = type(e).__name__
+            W.settle()
+    return {'logins': logins, 'der': der, 'all_joins': list(tok.calls)}
+
+
+def run_sent(hist, version, useed):
+    from vf import harness
+    return harness.run(lambda W: body_sent(W, hist, version),
+                       horizon=400000, seed=useed)
+
+
+def judge_sent(ctx, hist, version, useed, cl):
+    """One history on the real code; every login judged.  -> number of
+    logins counted as cases."""
+    x = run_sent(hist, version, useed)
+    case = {'kind': 'sent', 'history': [[list(cps), end]
+                                        for cps, end in hist],
+            'version': version, 'useed': useed}
+    htxt = hist_text(hist)
+    if x.failure is not None:
+        cl['out:sent: history did not run to the end'] += 1
+        ctx.violation('sent %s client %s' % (htxt, x.failure[0]),
+                      'history %s (protocol %d): the client %s: %s'
+                      % (htxt, version, x.failure[0], x.failure[1]), case)
+        return len(hist)
+    r = x.result
+    der = r['der']
+    wants = []
+    for j, ((cps, end), rec) in enumerate(zip(hist, r['logins'])):
+        sid = ''.join(map(chr, cps))
+        who = 'login %d of %d (server id %r, ending %s)' % (
+            j + 1, len(hist), sid, end)
+        if rec['servers'] != j + 1 or 'secret' not in rec:
+            cl['out:sent: login did not take place'] += 1
+            ctx.violation('sent %s no login %d' % (htxt, j + 1),
+                          'history %s (protocol %d): %s did not open a '
+                          'connection (%d so far; connect() raised: %s; '
+                          'client errors %s)'
+                          % (htxt, version, who, rec['servers'],
+                             rec['connect_raised'], rec['errs']), case)
+            wants.append(None)
+            continue
+        if rec['secret'] is None:
+            # the key holder could not read the secret: nothing to compare
+            # with (that is C18's subject); counted, guarded in run()
+            cl['out:sent: server recovered no secret (not judged)'] += 1
+            wants.append(None)
+            continue
+        idb = b''.join(map(utf8, cps))
+        d = hashlib.sha1(idb + rec['secret'] + der).digest()
+        want = ref.java_hex(d)
+        wants.append(want)
+        joins = rec['joins']
+        # classes
+        cl['sent: ' + (C_NEG if d[0] >= 0x80 else C_POS)] += 1
+        if len(idb) > len(cps):
+            cl[S_NONASCII] += 1
+        if not cps:
+            cl[S_EMPTY] += 1
+        if j >= 1:
+            earlier = [h[0] for h in hist[:j]]
+            cl[S_SAME if cps in earlier else S_DIFF] += 1
+            cl[S_AFTER_PLAY if hist[j - 1][1] == 'play'
+               else S_AFTER_DROP] += 1
+        if j == 2:
+            cl[S_THIRD] += 1
+        cl['sent: login ending %s' % end] += 1
+        cl['sent: protocol %d' % version] += 1
+        if cps == SENT_OFF and not joins:
+            cl[S_OFFLINE] += 1
+            cl['out:sent: offline id, nothing sent'] += 1
+            continue
+        if not joins:
+            cl['out:sent: no hash sent'] += 1
+            ctx.violation(
+                'sent %s login %d nothing' % (htxt, j + 1),
+                'history %s (protocol %d): in %s the server recovered the '
+                'secret %s from the encryption response, but nothing was '
+                'passed to auth_token.join during that login; expected %r '
+                '(client errors %s)'
+                % (htxt, version, who, rec['secret'].hex(), want,
+                   rec['errs']), case)
+            continue
+        bad = [g for g in joins if not (type(g) is str and g == want)]
+        if not bad:
+            cl['out:sent: join argument = reference hash'] += 1
+            continue
+        cl['out:sent: mismatch'] += 1
+        hint = 'no simple explanation found'
+        for i in range(j):
+            if wants[i] is not None and bad[0] == wants[i]:
+                hint = ('it is the hash that belonged to login %d of this '
+                        'history (secret %s): stale'
+                        % (i + 1, r['logins'][i]['secret'].hex()))
+                break
+        else:
+            if isinstance(bad[0], str):
+                h2 = explain(bad[0], list(cps), rec['secret'], der)
+                if not h2.startswith('no simple'):
+                    hint = h2
+        ctx.violation(
+            'sent %s login %d' % (htxt, j + 1),
+            'history %s on one Connection object (protocol %d, scripted '
+            'random source %d): in %s auth_token.join was given %r; the '
+            'server recovered secret %s in that login, so Java '
+            'BigInteger(sha1(utf8(id)+secret+key)).toString(16) = %r '
+            '(digest %s, %d-byte key).  Hint: %s'
+            % (htxt, version, useed, who, joins if len(joins) > 1
+               else joins[0], rec['secret'].hex(), want, d.hex(), len(der),
+               hint), case)
+    return len(hist)
+
+
+def w_keys(ctx, task):
+    """The cached server key must exist before the pool needs it."""
+    from vf import harness
+    harness.rsa_key()
+
+
+def w_sent(ctx, task):
+    import collections
+    hist, version = task
+    cl = collections.Counter()
+    n = judge_sent(ctx, hist, version, sent_useed(ctx.seed, hist, version),
+                   cl)
+    cl['sent: history of %d login(s)' % len(hist)] += 1
+    flush(ctx, cl)
+    ctx.count(n)
+    ctx.note_distinct(n)
+    ctx.extra['sent_histories'] = 1
+    if (hist, version) == (((SENT_A, 'play'), (SENT_A, 'play')), 757):
+        ctx.sample({'part': 'sent', 'history': hist_text(hist),
+                    'protocol': version})
+
+
 def run(ctx):
     use_repo()
     selfcheck()
@@ -337,15 +642,25 @@ def run(ctx):
         tasks += [((a, b), 1) for a in range(N) for b in range(N)]
     random.Random(ctx.seed).shuffle(tasks)
     ctx.pmap(w_ids, tasks, chunksize=16 if maxlen >= 3 else 1)
+    # part 2: harness executions, only ever inside pool workers
+    ctx.pmap(w_keys, [0])
+    sent = sent_histories(ctx)
+    random.Random(ctx.seed + 1).shuffle(sent)
+    ctx.pmap(w_sent, sent, chunksize=4 if ctx.thorough else 1)
     secrets = secrets_for(ctx.seed)
     n_ids = sum(N ** L for L in range(maxlen + 1))
+    n_sent = sum(len(h) for h, _ in sent)
     expected = n_ids * len(secrets) * len(KEYS) + 2 * len(VECTORS) \
-        + len(ORDER_CASES)
+        + len(ORDER_CASES) + n_sent
     if ctx.evaluations != expected:
         raise ToolError('enumerated %d cases, expected %d'
                         % (ctx.evaluations, expected))
-    vac = dict((label, int(ctx.classes.get(label, 0))) for label in REQUIRED)
+    vac = dict((label, int(ctx.classes.get(label, 0)))
+               for label in REQUIRED + SENT_REQUIRED)
     ctx.extra['vacuity_guard'] = vac
+    ctx.extra['sent_logins'] = n_sent
+    ctx.extra['sent_server_ids'] = [id_text(c) for c in (
+        SENT_A, SENT_B, SENT_EMPTY, SENT_OFF, sent_seed_id(ctx.seed))]
     ctx.extra['server_id_max_length'] = maxlen
     ctx.extra['server_ids'] = n_ids
     ctx.extra['alphabet'] = [id_text([c]) for c in ALPHA]
@@ -360,9 +675,14 @@ def run(ctx):
                     utf8(0xE9) + utf8(0x20AC) + utf8(0x1F600) +
                     b'\xff' * 16 + b'\x01').digest())})
     empty = [k for k, v in vac.items() if v == 0]
-    if empty:
+    if empty and not ctx.violations:    # (a broken tree may not get there)
         raise ToolError('vacuous enumeration: no case in class(es) %s'
                         % ', '.join(empty))
+    unjudged = ctx.outcomes.get(
+        'sent: server recovered no secret (not judged)', 0)
+    if unjudged and not ctx.violations:
+        raise ToolError('%d login(s) of the SENT part could not be judged: '
+                        'the reference server recovered no secret' % unjudged)
 
 
 def replay(ctx, case):
@@ -372,6 +692,14 @@ def replay(ctx, case):
         check_vector(ctx, case['name'], case['route'])
         return
     import collections
+    if case['kind'] == 'sent':
+        hist = tuple((tuple(int(c) for c in cps), str(end))
+                     for cps, end in case['history'])
+        cl = collections.Counter()
+        ctx.count(judge_sent(ctx, hist, int(case['version']),
+                             int(case['useed']), cl))
+        flush(ctx, cl)
+        return
     cps = [int(c) for c in case['id_cp']]
     sec, key = bytes(case['secret']), bytes(case['key'])
     names = dict((b, n) for n, b in secrets_for(ctx.seed))
